@@ -29,6 +29,8 @@ def _known_items(ex, st, seq, node):
         return list(seq.z)
     if seq.k == "conc" and isinstance(seq.z, (list, tuple)):
         return [lift_conc(ctx, mk_conc(x), node) for x in seq.z]
+    if _is_list(seq) and S.fixed_len(seq.x) is not None:
+        return [ex.load_elem(st, seq, z3.IntVal(i), node) for i in range(S.fixed_len(seq.x))]
     if _is_list(seq):
         lt = ctx.field_array(st, "len", AII)[seq.z]
         ln = z3.simplify(ctx.sel(ctx.field_array(st, "len", AII), seq.z))
@@ -219,6 +221,27 @@ def install(Exec, Runner):
     Exec.ev_ListComp = ev_ListComp
     Exec.ev_GeneratorExp = ev_GeneratorExp
 
+    # ---- namedtuple field read on a fixed-arity sequence: slice.Y == slice[0] (api.tuple_fields) -----------------------
+    base_attr = Exec.ev_Attribute
+
+    def ev_Attribute(self, st, e):
+        tf = getattr(self.reg, "tuple_fields", {})
+        if e.attr in tf:
+            base = self.ev(st, e.value)
+            if _is_list(base) and S.fixed_len(base.x) is not None:
+                return self.load_elem(st, base, z3.IntVal(tf[e.attr]), e)
+            st.env["__attr_base2"] = base
+            st.defd["__attr_base2"] = z3.BoolVal(True)
+            try:
+                e2 = ast.copy_location(ast.Attribute(value=ast.Name(id="__attr_base2", ctx=ast.Load()), attr=e.attr, ctx=ast.Load()), e)
+                return base_attr(self, st, e2)
+            finally:
+                st.env.pop("__attr_base2", None)
+                st.defd.pop("__attr_base2", None)
+        return base_attr(self, st, e)
+
+    Exec.ev_Attribute = ev_Attribute
+
     # ---- tuple target <- list of known length ------------------------------------------------------------
     base_assign = Runner.assign_target
 
@@ -297,7 +320,21 @@ def install_calls():
                 else:
                     st.env[nm], st.defd[nm] = saved
             return SV("array", z3.Lambda([k], as_int(ctx, st, v, e)))
+        if name == "check":
+            # ghost assertion (a cut): proved here, then available as a fact
+            from .symexec import truth
+
+            saved = ex.ctx.spec_mode
+            ex.ctx.spec_mode = True
+            try:
+                c = truth(ex.ctx, st, ex.ev(st, e.args[0]), e)
+            finally:
+                ex.ctx.spec_mode = saved
+            ex.ctx.oblige(st, c, "ghost-assert", e, "ghost assertion: " + ast.unparse(e.args[0]), force=True)
+            ex.ctx.assume(st, c)
+            return S.NONE
         return base_ghost(ex, st, name, e)
 
     C.ghost_call = ghost_call
     S.GHOST_NAMES.add("mkarray")
+    S.GHOST_NAMES.add("check")
